@@ -24,7 +24,8 @@ import nnps_common as nc                              # noqa: E402
 
 def design(chk, names):
     def one(n):
-        r = tlc.run('NNPS', 'NNPS.%s.cfg' % n, workers=4, timeout=3000)
+        r = tlc.run('NNPS', 'NNPS.%s.cfg' % n, workers=8 if 'big' in n else 4,
+                    timeout=3000 if chk.tier == 'quick' else 14000)
         if r.get('error') or r.get('timeout'):
             raise MachineryError('TLC design %s failed:\n%s' % (
                 n, r['out'][-2000:]))
